@@ -12,10 +12,12 @@ import (
 	"encoding/hex"
 	"errors"
 	"math/big"
+	"reflect"
 	"strings"
 	"sync"
 
 	"github.com/ChainSafe/sygma-relayer/chains"
+	"github.com/ChainSafe/sygma-relayer/chains/evm/calls/consts"
 	evmbridge "github.com/ChainSafe/sygma-relayer/chains/evm/calls/contracts/bridge"
 	evmexec "github.com/ChainSafe/sygma-relayer/chains/evm/executor"
 	subexec "github.com/ChainSafe/sygma-relayer/chains/substrate/executor"
@@ -24,6 +26,7 @@ import (
 	tsscommon "github.com/binance-chain/tss-lib/common"
 	"github.com/centrifuge/go-substrate-rpc-client/v4/rpc/author"
 	"github.com/centrifuge/go-substrate-rpc-client/v4/types"
+	"github.com/ethereum/go-ethereum/accounts/abi"
 	ethCommon "github.com/ethereum/go-ethereum/common"
 	"github.com/ethereum/go-ethereum/crypto"
 	evmclient "github.com/sygmaprotocol/sygma-core/chains/evm/client"
@@ -94,6 +97,16 @@ func (b *c02Bridge) ExecuteProposals(ps []*transfer.TransferProposal, sig []byte
 }
 func (b *c02Bridge) ProposalsHash(ps []*transfer.TransferProposal) ([]byte, error) {
 	return make([]byte, 32), nil
+}
+
+type c02Transactor struct {
+	to   *ethCommon.Address
+	data []byte
+}
+
+func (t *c02Transactor) Transact(to *ethCommon.Address, data []byte, opts transactor.TransactOptions) (*ethCommon.Hash, error) {
+	t.to, t.data = to, append([]byte{}, data...)
+	return &ethCommon.Hash{}, nil
 }
 
 type c02Pallet struct {
@@ -243,6 +256,39 @@ func init() {
 			return "ok"
 		}
 		return "ok" // no signature with that many leading zero bytes found within the budget: nothing to test
+	}
+	// evmcall <props> <sig hex> => <props as decoded from the calldata>|<sig as decoded>|<to>   | err
+	//   the REAL BridgeContract.ExecuteProposals packs the transaction; a capturing transactor hands us the calldata, which is
+	//   decoded with the bridge ABI: the batch the contract will hash is the batch we were given, in order, and the signature
+	//   bytes arrive unchanged.
+	ops["C02.evmcall"] = func(a []string) string {
+		tr := &c02Transactor{}
+		addr := ethCommon.HexToAddress("0x6cde2cd82a4f8b74693ff5e194c19ca08c2d1c68")
+		bc := evmbridge.NewBridgeContract(&c02Client{id: big.NewInt(1)}, addr, tr)
+		if _, err := bc.ExecuteProposals(c02Props(a[0]), unhx(a[1]), transactor.TransactOptions{GasLimit: 5}); err != nil || len(tr.data) < 4 {
+			return "err"
+		}
+		ab, err := abi.JSON(strings.NewReader(consts.BridgeABI))
+		if err != nil {
+			panic(err)
+		}
+		m := ab.Methods["executeProposals"]
+		if !bytes.Equal(tr.data[:4], m.ID) || tr.to == nil || *tr.to != addr {
+			return "wrong-selector-or-target"
+		}
+		vals, err := m.Inputs.Unpack(tr.data[4:])
+		if err != nil || len(vals) != 2 {
+			return "undecodable"
+		}
+		out := []string{}
+		rv := reflect.ValueOf(vals[0])
+		for i := 0; i < rv.Len(); i++ {
+			e := rv.Index(i)
+			rid := e.FieldByName("ResourceID").Interface().([32]byte)
+			out = append(out, utoa(uint64(e.FieldByName("OriginDomainID").Interface().(uint8)))+":"+utoa(e.FieldByName("DepositNonce").Interface().(uint64))+":"+
+				hex.EncodeToString(rid[:])+":"+hx(e.FieldByName("Data").Interface().([]byte)))
+		}
+		return joinOr(out, ";") + "|" + hx(vals[1].([]byte))
 	}
 	gens["C02"] = genC02
 }
@@ -415,6 +461,12 @@ func genC02(g *G) {
 			rec := []string{"-", "0001", "0100", "000000"}[g.Intn(4)]
 			g.Emit(op, hx(g.Bytes(g.Intn(40))), hx(g.Bytes(g.Intn(40))), rec)
 		}
+	}
+
+	// 4b. the calldata of executeProposals carries exactly the batch and the signature
+	g.Emit("evmcall", "-", hx(g.Bytes(65)))
+	for i := 0; i < g.Count(120, 6000); i++ {
+		g.Emit("evmcall", c02RandProps(g, 5), hx(g.Bytes([]int{65, 65, 65, 64, 0, 66}[g.Intn(6)])))
 	}
 
 	// 5. TEST (labelled): go-ethereum keys sign the real digest; the real assembly's bytes must recover the signer
